@@ -10,8 +10,10 @@ import (
 
 func TestVerifC03Fetch(t *testing.T) {
 	r := verifkit.Start(t, "C03", "fetch")
-	defer r.Finish("case = a log built through the real handler (3 partitions over 2 topics, 4-13 well-formed batches of 1-5 records with unique values; modes: flush-on-ack (one segment per produce, optional restart), buffered acks=1 with batch-count flush threshold (multi-batch segments + unflushed tail served from the write buffer), mid-flush (producers and a fetcher under the deterministic scheduler, reads while uploads are held)) x index interval {1,3,100} x cache {off, 1MiB, 700B} x read-ahead {0,2}; every offset of every partition is then read with byte limits {1,60,61,62,100,150,400,5000,1MiB,0} through handler Fetch and PartitionLog.Read and judged against the reference log (exact bytes oracle); distinct = configuration signature x case; non-trivial = case judged > 20 reads",
-		"reference log = acknowledged batches in offset order with the acknowledged base patched in", "reads are sequential except in mid-flush mode")
+	defer r.Finish("case = a log built through the real handler (3 partitions over 2 topics, 4-13 well-formed batches of 1-5 records with unique values; modes: flush-on-ack (one segment per produce, optional restart), buffered acks=1 with batch-count flush threshold (multi-batch segments + unflushed tail served from the write buffer), mid-flush (2-3 producers and a fetcher under the deterministic scheduler, reads while uploads are held; in 2/3 of these cases one segment/index upload may fail without effect while producers keep appending - the schedule prefers to fail a flush that an append overlapped -, the failed produce is answered with an error, the log requeues the drained batches and a later flush or a final forced flush stores them)) x index interval {1,3,100} x cache {off, 1MiB, 700B} x read-ahead {0,2}; every offset of every partition is then read with byte limits {1,60,61,62,100,150,400,5000,1MiB,0} through handler Fetch and PartitionLog.Read and judged against the reference log (exact bytes oracle); distinct = configuration signature x case; non-trivial = case judged > 20 reads",
+		"reference log = acknowledged batches in offset order with the acknowledged base patched in; in mid-flush cases with an upload fault it is completed from the final stored log: every batch a producer sent that is found stored (frames matched ignoring the 8-byte base offset) belongs to it at its stored offset, also when its produce was answered with an error",
+		"C03 only: in those cases a stored frame that matches no sent batch, a sent batch stored twice, or an acknowledged batch that is missing from the log or stored at another offset than acknowledged is reported as a violation (bytes that no producer appended / not the acknowledged bytes in order)",
+		"reads are sequential except in mid-flush mode")
 	n := r.N(260, 20000)
 	for ci := 0; ci < n; ci++ {
 		rng := r.Rand(ci)
@@ -27,4 +29,6 @@ func TestVerifC03Fetch(t *testing.T) {
 	r.Floor("cases_sparse_index", 20)
 	r.Floor("reads_partitionlog_read_in_gap", 50)
 	r.Floor("nonempty_fetch_replies_while_upload_pending", 20)
+	r.Floor("midflush_failed_uploads_of_a_flush_overlapped_by_an_append", 8)
+	r.Floor("midflush_unacknowledged_batches_found_stored", 8)
 }
